@@ -23,12 +23,12 @@ LABEL_POOLS = {
 def gen_circuit(rng, *, max_inputs=5, max_gates=14, types=None, max_arity=5, label_pool='plain',
                 shuffle_storage=True, allow_dead=True, n_outputs=None, p_repeat_operand=0.2,
                 p_output_is_input=0.15, p_repeat_output=0.15, min_inputs=0, blocks=False,
-                const_ops=True, p_twin=0.0):
+                const_ops=True, p_twin=0.0, min_gates=None):
     """A well-formed random circuit: dict(gates, inputs, outputs, users, blocks).
     Returns (json, info) where info counts the feature knobs that fired."""
     types = types or (SYM_NARY + CMP + LR + UNARY + CONST)
     ni = rng.randint(min_inputs, max_inputs)
-    ng = rng.randint(0 if ni > 0 else 1, max_gates)
+    ng = rng.randint(0 if ni > 0 else 1, max_gates) if min_gates is None else rng.randint(min_gates, max(min_gates, max_gates))
     mk = LABEL_POOLS[label_pool]
     labels = [mk(i) for i in range(ni + ng)]
     rng.shuffle(labels)
